@@ -18,7 +18,7 @@ THOROUGH_TIED = [(3, 2, 3), (4, 2, 2), (3, 3, 2)]
 def run(tier):
     common.bind_repo()
     rep = Report(PID, tier, 'model_checking')
-    bl = hjcommon.QUICK_BOUNDS[:3] if tier == 'quick' else hjcommon.THOROUGH_BOUNDS      # the deep and tied enumerations below go further
+    bl = hjcommon.QUICK_BOUNDS[:4] if tier == 'quick' else hjcommon.THOROUGH_BOUNDS      # the deep and tied enumerations below go further
     hjcommon.explore(rep, ('C03',), bl, ('C03',))
     hjcommon.explore_codecs(rep, ('C03',), tier, ('C03',))
     hjcommon.probe_long_cards(rep, ('C03',))
